@@ -16,6 +16,8 @@ from . import build
 from . import findings
 
 VERIF = build.VERIF
+# evidence/ and replays/ go here (redirected for runs against scratch copies)
+OUT = os.environ.get('VMON_OUT', VERIF)
 PY = build.PY
 
 
@@ -243,10 +245,10 @@ def run_check(pid, tier, seed, root=None, jobs=16, keep=False):
         else:
             unknown.append(v)
     rc = 0
-    os.makedirs(os.path.join(VERIF, 'replays'), exist_ok=True)
-    for fn in os.listdir(os.path.join(VERIF, 'replays')):
+    os.makedirs(os.path.join(OUT, 'replays'), exist_ok=True)
+    for fn in os.listdir(os.path.join(OUT, 'replays')):
         if fn.startswith(pid + '-'):
-            os.unlink(os.path.join(VERIF, 'replays', fn))
+            os.unlink(os.path.join(OUT, 'replays', fn))
     for fid, vs in sorted(known_hit.items()):
         print('KNOWN-FINDING: property=%s %s: %s (%d occurrences)' % (
             pid, fid, findings.describe(fid), len(vs)))
@@ -256,7 +258,7 @@ def run_check(pid, tier, seed, root=None, jobs=16, keep=False):
         seen_mech[key] = seen_mech.get(key, 0) + 1
         if seen_mech[key] > 3:
             continue
-        path = os.path.join(VERIF, 'replays', '%s-%d-%d.json' % (pid, seed, i))
+        path = os.path.join(OUT, 'replays', '%s-%d-%d.json' % (pid, seed, i))
         with open(path, 'w') as fh:
             json.dump(dict(property=pid, tier=tier, seed=seed, violation=v),
                       fh, indent=1, default=repr)
@@ -307,8 +309,8 @@ def _write_evidence(pid, mod, tier, seed, t0, evaluations, distinct, events,
         wall_s=round(time.time() - t0, 2),
         violations=nviol,
     )
-    os.makedirs(os.path.join(VERIF, 'evidence'), exist_ok=True)
-    path = os.path.join(VERIF, 'evidence', '%s.json' % pid)
+    os.makedirs(os.path.join(OUT, 'evidence'), exist_ok=True)
+    path = os.path.join(OUT, 'evidence', '%s.json' % pid)
     with open(path + '.tmp', 'w') as fh:
         json.dump(ev, fh, indent=1, default=repr)
     os.replace(path + '.tmp', path)
